@@ -346,6 +346,38 @@ Ltac popL HL Hlps fr Hfr :=
 Ltac st_cbn := cbn [a_stack a_loops a_caps stack loops caps blocks cur_block push upd_stack upd_loops
                     upd_caps upd_blocks upd_setvars store_global upd_block_buffer].
 
+Lemma str_eqb_eq : forall a b : str, str_eqb a b = true -> a = b.
+Proof.
+  unfold str_eqb. induction a as [|x a IH]; intros [|y b]; cbn; try discriminate; [reflexivity|].
+  intros H. apply andb_prop in H. destruct H as [H1 H2]. apply N.eqb_eq in H1. subst. f_equal. exact (IH _ H2).
+Qed.
+
+(* a chunk whose references resolve holds no call of a name the registries lack *)
+Lemma refs_collected (wd : world) (reg : registry) : world_respects wd reg ->
+  forall c, refs_resolved reg wd c = true ->
+  forall ip i, nth_error c ip = Some i ->
+  match i with
+  | ApplyFilter n => forall v k sc, w_filter wd n v k sc <> None
+  | RunTest n => forall v k, w_test wd n v k <> None
+  | CallFunction n => n = s_super \/ forall k sc, w_function wd n k sc <> None
+  | RenderInlineComponent n | RenderBodyComponent n => assoc_get (w_components wd) n <> None
+  | Include n => assoc_get (w_templates wd) n <> None
+  | _ => True
+  end.
+Proof.
+  intros (HF & HT & HFn) c HR ip i N.
+  pose proof (fun r => nth_error_refs reg wd c ip i r HR N) as REF.
+  destruct i; try exact I; specialize (REF _ eq_refl); cbn [ref_resolved] in REF.
+  - unfold has_key in REF. destruct (assoc_get (w_templates wd) n); [discriminate|discriminate REF].
+  - apply orb_prop in REF. destruct REF as [REF|REF].
+    + left. exact (str_eqb_eq _ _ REF).
+    + right. exact (HFn n REF).
+  - unfold has_key in REF. destruct (assoc_get (w_components wd) n); [discriminate|discriminate REF].
+  - unfold has_key in REF. destruct (assoc_get (w_components wd) n); [discriminate|discriminate REF].
+  - exact (HF n REF).
+  - exact (HT n REF).
+Qed.
+
 Section Sound.
   Variable W : Type.
   Variable wr : W -> str -> option W.
